@@ -242,7 +242,18 @@ fn test_duration(c: &DurCase, cx: &mut Cx) -> CaseResult {
 fn strat_dur_case() -> BoxedStrategy<DurCase> {
     let secs = prop_oneof![3 => gen::biased(i64::MIN, i64::MAX), 3 => gen::biased(-400_000, 400_000), 1 => Just(i64::MIN), 1 => Just(i64::MAX)];
     let nanos = prop_oneof![Just(0i32), Just(1), Just(999_999_999), Just(500_000_000), Just(1_000_000), Just(123_456_789), 0i32..1_000_000_000];
-    (secs, nanos, strat_config(), any::<bool>()).prop_map(|(secs, nanos, cfg, lower)| DurCase { secs, nanos, cfg, lower }).boxed()
+    // For a SignedDuration the zero unit is restricted to hours and below:
+    // the friendly parser documents that calendar units cannot be parsed
+    // into a SignedDuration, so `zero_unit(Unit::Year)` is a configuration
+    // that only makes sense for spans.
+    (secs, nanos, strat_config(), any::<bool>())
+        .prop_map(|(secs, nanos, mut cfg, lower)| {
+            if cfg.zero_unit < 4 {
+                cfg.zero_unit = 4 + cfg.zero_unit;
+            }
+            DurCase { secs, nanos, cfg, lower }
+        })
+        .boxed()
 }
 
 pub fn property() -> Property {
@@ -251,7 +262,10 @@ pub fn property() -> Property {
         id: "C15",
         level: "exploration",
         rule: "proptest: Span (limit-biased units, all unit mixes, both signs) and SignedDuration (i64 extremes, sub-second mixes) x friendly printer configuration drawn jointly (4 designators x 3 spacings x 4 directions x fractional {none,h,m,s,ms,us} x comma x HH:MM:SS x padding x precision {None,0..9,12} x zero unit) x ISO case option. Oracle: documented-lossless configurations (no reduced precision, no fractional hours/minutes) must parse back unit for unit (fractional/HMS: equal after folding the folded units into one i128 total; calendar units identical); ISO: years..minutes identical, equal total of seconds and smaller; every configuration: the text parses and denotes a value within one unit of the last printed digit. Designator::HumanTime output without fractions is additionally read by the humantime crate. Non-trivial: >= 2 non-zero units or sub-second units or negative or limit values under a non-default configuration.",
-        assumptions: &["days are 24h and weeks 7 days only for comparing the folded uniform totals; calendar units are compared fieldwise"],
+        assumptions: &[
+            "days are 24h and weeks 7 days only for comparing the folded uniform totals; calendar units are compared fieldwise",
+            "for SignedDuration the zero_unit option is drawn from hours..nanoseconds only (calendar units cannot be parsed into a SignedDuration, documented)",
+        ],
         checks: vec![
             Box::new(Prop { name: "c15.span", quick: 800_000, thorough: 40_000_000, strategy: strat_span_case, test: test_span }),
             Box::new(Prop { name: "c15.duration", quick: 800_000, thorough: 40_000_000, strategy: strat_dur_case, test: test_duration }),
